@@ -582,10 +582,12 @@ func redactExternalURL(rawURL string) string {
 	return u.String()
 }
 
-// batchMetadata extracts custom metadata from a record batch.
+// batchMetadata extracts the per-batch custom metadata from a record batch.
+// The protocol keys (vgi_rpc.log_level, vgi_rpc.location, ...) travel in the
+// IPC message's custom_metadata, not in the stream schema's metadata.
 func batchMetadata(rec arrow.RecordBatch) arrow.Metadata {
-	if rec.Schema().HasMetadata() {
-		return rec.Schema().Metadata()
+	if rb, ok := rec.(arrow.RecordBatchWithMetadata); ok {
+		return rb.Metadata()
 	}
 	return arrow.Metadata{}
 }
